@@ -36,35 +36,28 @@ theorem encE_le_of_ip {v6 ap : Bool} {r : List Entry} (h : IpS v6 r) :
 def reachLegacyFam (p : Profile) (enc peer : Codec) (attrs : List Attr) (es0 : List Entry) (a : Bytes)
     (ab : Bytes) (fin : List Attr) (P : AttrPart peer.twoByte ab fin)
     (hattrs : encodeAttrs p enc.twoByte attrs 0 = .ok (ab, ab.length))
-    (hleg : enc.extNh = false) (ha : a.length = 4) (hc : CodecPair enc peer Fam.ipv4)
-    (hfit : enc.maxLen > 23 + (ab.length + 7) + (5 + ap4 (enc.addpathTx Fam.ipv4))) :
+    (hleg : enc.extNh = false) (ha : a.length = 4) (hc : CodecPair enc peer Fam.ipv4) :
     UpdFam p enc peer (.reach Fam.ipv4 (some (.v4 a)) attrs es0) where
-  S := IpS false
-  hdrop := fun _ n h => h.drop n
-  N := fun r => fitN enc.maxLen (5 + ap4 (enc.addpathTx Fam.ipv4)) (enc.addpathTx Fam.ipv4) (23 + (ab.length + 7)) r
+  S := fun r => IpS false r ∧ FitS enc.maxLen 0 (enc.addpathTx Fam.ipv4) (23 + (ab.length + 7)) r
+  hdrop := fun _ n h => ⟨h.1.drop n, h.2.drop n⟩
+  hmaxeq := hc.hmax
+  N := fun r => fitN enc.maxLen 0 (enc.addpathTx Fam.ipv4) (23 + (ab.length + 7)) r
   body := fun r => [0, 0] ++ be16 (ab.length + 7) ++ (ab ++ encRaw (nhRaw a)) ++
-    (r.take (fitN enc.maxLen (5 + ap4 (enc.addpathTx Fam.ipv4)) (enc.addpathTx Fam.ipv4) (23 + (ab.length + 7)) r)).flatMap
+    (r.take (fitN enc.maxLen 0 (enc.addpathTx Fam.ipv4) (23 + (ab.length + 7)) r)).flatMap
       (encE (enc.addpathTx Fam.ipv4))
   Q := fun r => .upd (some (Fam.ipv4, some (.v4 a),
-      (r.take (fitN enc.maxLen (5 + ap4 (enc.addpathTx Fam.ipv4)) (enc.addpathTx Fam.ipv4) (23 + (ab.length + 7)) r)).map
+      (r.take (fitN enc.maxLen 0 (enc.addpathTx Fam.ipv4) (23 + (ab.length + 7)) r)).map
         (decE false (enc.addpathTx Fam.ipv4)))) none none none fin []
-  hdo := by
+  hdo0 := by
     intro r hr hS
     have h16 := hc.hmax16
-    exact doEncode_reach_legacy p enc attrs es0 r a ab hleg ha hattrs (by omega) (encOk_of_ip false r hS) hr
-  hpos := by
-    intro r hr _
-    cases r with
-    | nil => exact absurd rfl hr
-    | cons e rest => exact Nat.pos_iff_ne_zero.mp (fitN_pos _ _ _ _ e rest hfit)
+    exact doEncode_reach_legacy p enc attrs es0 r a ab hleg ha hattrs (encOk_of_ip false r hS.1) hr
+      (Nat.pos_iff_ne_zero.mp (fitN_pos_of_fitS hS.2 hr))
+  hpos := fun r hr hS => Nat.pos_iff_ne_zero.mp (fitN_pos_of_fitS hS.2 hr)
   hsize := by
     intro r hr hS
-    have hpos : 0 < fitN enc.maxLen (5 + ap4 (enc.addpathTx Fam.ipv4)) (enc.addpathTx Fam.ipv4) (23 + (ab.length + 7)) r := by
-      cases r with
-      | nil => exact absurd rfl hr
-      | cons e rest => exact fitN_pos _ _ _ _ e rest hfit
-    have hb := fitN_bound enc.maxLen (5 + ap4 (enc.addpathTx Fam.ipv4)) (enc.addpathTx Fam.ipv4) (23 + (ab.length + 7)) r
-      (by intro e he; have := encE_le_of_ip (ap := enc.addpathTx Fam.ipv4) hS e he; simp [alenOf] at this; omega) hpos
+    have hpos : 0 < fitN enc.maxLen 0 (enc.addpathTx Fam.ipv4) (23 + (ab.length + 7)) r := fitN_pos_of_fitS hS.2 hr
+    have hb := fitN_bound enc.maxLen 0 (enc.addpathTx Fam.ipv4) (23 + (ab.length + 7)) r hpos
     have hnl : (encRaw (nhRaw a)).length = 7 := by simp [encRaw, nhRaw, lenField, hasExt, ha]
     have h16 := hc.hmax16
     rw [hc.hmax]
@@ -72,15 +65,14 @@ def reachLegacyFam (p : Profile) (enc peer : Codec) (attrs : List Attr) (es0 : L
     omega
   hparse := by
     intro od r hr hS
-    have hpos : fitN enc.maxLen (5 + ap4 (enc.addpathTx Fam.ipv4)) (enc.addpathTx Fam.ipv4) (23 + (ab.length + 7)) r ≠ 0 := by
-      cases r with
-      | nil => exact absurd rfl hr
-      | cons e rest => exact Nat.pos_iff_ne_zero.mp (fitN_pos _ _ _ _ e rest hfit)
+    have hpos : fitN enc.maxLen 0 (enc.addpathTx Fam.ipv4) (23 + (ab.length + 7)) r ≠ 0 := Nat.pos_iff_ne_zero.mp (fitN_pos_of_fitS hS.2 hr)
+    have hb := fitN_bound enc.maxLen 0 (enc.addpathTx Fam.ipv4) (23 + (ab.length + 7)) r (fitN_pos_of_fitS hS.2 hr)
     have h16 := hc.hmax16
     exact parseUpdate_reach_legacy od peer ab fin P a _ (enc.addpathTx Fam.ipv4) hc.hrx ha
-      (take_ne_nil hr hpos) (hS.take _) (by omega)
+      (take_ne_nil hr hpos) (hS.1.take _) (by omega)
   hstruct := by
-    intro r _ _
+    intro r hr hS
+    have hb := fitN_bound enc.maxLen 0 (enc.addpathTx Fam.ipv4) (23 + (ab.length + 7)) r (fitN_pos_of_fitS hS.2 hr)
     have h16 := hc.hmax16
     exact reach_legacy_struct ab fin P a _ ha (by omega)
 
@@ -92,42 +84,31 @@ def reachMpFam (p : Profile) (enc peer : Codec) (f : Fam) (v6 : Bool) (attrs : L
     (ab : Bytes) (fin : List Attr) (P : AttrPart peer.twoByte ab fin)
     (hattrs : encodeAttrs p enc.twoByte attrs 0 = .ok (ab, ab.length))
     (hmp : ¬ (f = Fam.ipv4 ∧ (!enc.extNh) = true)) (hf : isIpFam f = some v6)
-    (hfa : f.afi < 65536) (hfs : f.safi < 256) (hnh : NhMp nh) (hc : CodecPair enc peer f)
-    (hfit : enc.maxLen > 23 + ab.length + 4 + (5 + nh.bytes.length) + (17 + ap4 (enc.addpathTx f))) :
+    (hfa : f.afi < 65536) (hfs : f.safi < 256) (hnh : NhMp nh) (hc : CodecPair enc peer f) :
     UpdFam p enc peer (.reach f (some nh) attrs es0) where
-  S := IpS v6
-  hdrop := fun _ n h => h.drop n
-  N := fun r => fitN enc.maxLen (17 + ap4 (enc.addpathTx f)) (enc.addpathTx f) (23 + ab.length + 4 + (5 + nh.bytes.length)) r
+  S := fun r => IpS v6 r ∧ FitS enc.maxLen 0 (enc.addpathTx f) (23 + ab.length + 4 + (5 + nh.bytes.length)) r
+  hdrop := fun _ n h => ⟨h.1.drop n, h.2.drop n⟩
+  hmaxeq := hc.hmax
+  N := fun r => fitN enc.maxLen 0 (enc.addpathTx f) (23 + ab.length + 4 + (5 + nh.bytes.length)) r
   body := fun r =>
-    let nb := (r.take (fitN enc.maxLen (17 + ap4 (enc.addpathTx f)) (enc.addpathTx f)
+    let nb := (r.take (fitN enc.maxLen 0 (enc.addpathTx f)
       (23 + ab.length + 4 + (5 + nh.bytes.length)) r)).flatMap (encE (enc.addpathTx f))
     [0, 0] ++ be16 (ab.length + (encRaw (mpReachRaw f nh.bytes nb)).length) ++ (ab ++ encRaw (mpReachRaw f nh.bytes nb))
   Q := fun r => .upd none (some (f, some nh,
-      (r.take (fitN enc.maxLen (17 + ap4 (enc.addpathTx f)) (enc.addpathTx f)
+      (r.take (fitN enc.maxLen 0 (enc.addpathTx f)
         (23 + ab.length + 4 + (5 + nh.bytes.length)) r)).map (decE v6 (enc.addpathTx f)))) none none fin []
-  hdo := by
+  hdo0 := by
     intro r hr hS
     have h16 := hc.hmax16
-    have hpos : 0 < fitN enc.maxLen (17 + ap4 (enc.addpathTx f)) (enc.addpathTx f) (23 + ab.length + 4 + (5 + nh.bytes.length)) r := by
-      cases r with
-      | nil => exact absurd rfl hr
-      | cons e rest => exact fitN_pos _ _ _ _ e rest hfit
-    have hb := fitN_bound enc.maxLen (17 + ap4 (enc.addpathTx f)) (enc.addpathTx f) (23 + ab.length + 4 + (5 + nh.bytes.length)) r
-      (by intro e he; have := encE_le_of_ip (ap := enc.addpathTx f) hS e he; have := alenOf_le v6; omega) hpos
-    exact doEncode_reach_mp p enc f v6 attrs es0 r nh ab _ _ hmp hf hnh (encOk_of_ip v6 r hS) hattrs rfl rfl (by omega)
-  hpos := by
-    intro r hr _
-    cases r with
-    | nil => exact absurd rfl hr
-    | cons e rest => exact Nat.pos_iff_ne_zero.mp (fitN_pos _ _ _ _ e rest hfit)
+    have hpos : 0 < fitN enc.maxLen 0 (enc.addpathTx f) (23 + ab.length + 4 + (5 + nh.bytes.length)) r := fitN_pos_of_fitS hS.2 hr
+    have hb := fitN_bound enc.maxLen 0 (enc.addpathTx f) (23 + ab.length + 4 + (5 + nh.bytes.length)) r hpos
+    exact doEncode_reach_mp p enc f v6 attrs es0 r nh ab _ _ hmp hf hnh (encOk_of_ip v6 r hS.1) hattrs rfl rfl
+      (fun _ => Nat.pos_iff_ne_zero.mp hpos) (by omega)
+  hpos := fun r hr hS => Nat.pos_iff_ne_zero.mp (fitN_pos_of_fitS hS.2 hr)
   hsize := by
     intro r hr hS
-    have hpos : 0 < fitN enc.maxLen (17 + ap4 (enc.addpathTx f)) (enc.addpathTx f) (23 + ab.length + 4 + (5 + nh.bytes.length)) r := by
-      cases r with
-      | nil => exact absurd rfl hr
-      | cons e rest => exact fitN_pos _ _ _ _ e rest hfit
-    have hb := fitN_bound enc.maxLen (17 + ap4 (enc.addpathTx f)) (enc.addpathTx f) (23 + ab.length + 4 + (5 + nh.bytes.length)) r
-      (by intro e he; have := encE_le_of_ip (ap := enc.addpathTx f) hS e he; have := alenOf_le v6; omega) hpos
+    have hpos : 0 < fitN enc.maxLen 0 (enc.addpathTx f) (23 + ab.length + 4 + (5 + nh.bytes.length)) r := fitN_pos_of_fitS hS.2 hr
+    have hb := fitN_bound enc.maxLen 0 (enc.addpathTx f) (23 + ab.length + 4 + (5 + nh.bytes.length)) r hpos
     have h16 := hc.hmax16
     rw [hc.hmax]
     simp only [List.length_append, be16_length, List.length_cons, List.length_nil]
@@ -136,26 +117,18 @@ def reachMpFam (p : Profile) (enc peer : Codec) (f : Fam) (v6 : Bool) (attrs : L
     omega
   hparse := by
     intro od r hr hS
-    have hpos : 0 < fitN enc.maxLen (17 + ap4 (enc.addpathTx f)) (enc.addpathTx f) (23 + ab.length + 4 + (5 + nh.bytes.length)) r := by
-      cases r with
-      | nil => exact absurd rfl hr
-      | cons e rest => exact fitN_pos _ _ _ _ e rest hfit
-    have hb := fitN_bound enc.maxLen (17 + ap4 (enc.addpathTx f)) (enc.addpathTx f) (23 + ab.length + 4 + (5 + nh.bytes.length)) r
-      (by intro e he; have := encE_le_of_ip (ap := enc.addpathTx f) hS e he; have := alenOf_le v6; omega) hpos
+    have hpos : 0 < fitN enc.maxLen 0 (enc.addpathTx f) (23 + ab.length + 4 + (5 + nh.bytes.length)) r := fitN_pos_of_fitS hS.2 hr
+    have hb := fitN_bound enc.maxLen 0 (enc.addpathTx f) (23 + ab.length + 4 + (5 + nh.bytes.length)) r hpos
     have h16 := hc.hmax16
     exact parseUpdate_reach_mp od peer f v6 ab fin P nh _ (enc.addpathTx f) hc.hrx hf hfa hfs hnh
-      (take_ne_nil hr (Nat.pos_iff_ne_zero.mp hpos)) (hS.take _)
+      (take_ne_nil hr (Nat.pos_iff_ne_zero.mp hpos)) (hS.1.take _)
       (by rw [encRaw_mpReach]
           simp only [List.length_append, be16_length, List.length_cons, List.length_nil, mpReachVal]
           omega)
   hstruct := by
     intro r hr hS
-    have hpos : 0 < fitN enc.maxLen (17 + ap4 (enc.addpathTx f)) (enc.addpathTx f) (23 + ab.length + 4 + (5 + nh.bytes.length)) r := by
-      cases r with
-      | nil => exact absurd rfl hr
-      | cons e rest => exact fitN_pos _ _ _ _ e rest hfit
-    have hb := fitN_bound enc.maxLen (17 + ap4 (enc.addpathTx f)) (enc.addpathTx f) (23 + ab.length + 4 + (5 + nh.bytes.length)) r
-      (by intro e he; have := encE_le_of_ip (ap := enc.addpathTx f) hS e he; have := alenOf_le v6; omega) hpos
+    have hpos : 0 < fitN enc.maxLen 0 (enc.addpathTx f) (23 + ab.length + 4 + (5 + nh.bytes.length)) r := fitN_pos_of_fitS hS.2 hr
+    have hb := fitN_bound enc.maxLen 0 (enc.addpathTx f) (23 + ab.length + 4 + (5 + nh.bytes.length)) r hpos
     have h16 := hc.hmax16
     have hnl := (nhMp_bytes nh hnh).1
     exact reach_mp_struct f ab fin P nh.bytes _ (by rcases hnl with h | h <;> omega)
@@ -166,109 +139,78 @@ def reachMpFam (p : Profile) (enc peer : Codec) (f : Fam) (v6 : Bool) (attrs : L
 /-! ### withdrawals -/
 
 def unreachLegacyFam (p : Profile) (enc peer : Codec) (es0 : List Entry)
-    (hleg : enc.extNh = false) (hc : CodecPair enc peer Fam.ipv4)
-    (hfit : enc.maxLen > 21 + (5 + 2 + ap4 (enc.addpathTx Fam.ipv4))) :
+    (hleg : enc.extNh = false) (hc : CodecPair enc peer Fam.ipv4) :
     UpdFam p enc peer (.unreach Fam.ipv4 es0) where
-  S := IpS false
-  hdrop := fun _ n h => h.drop n
-  N := fun r => fitN enc.maxLen (5 + 2 + ap4 (enc.addpathTx Fam.ipv4)) (enc.addpathTx Fam.ipv4) 21 r
+  S := fun r => IpS false r ∧ FitS enc.maxLen 2 (enc.addpathTx Fam.ipv4) 21 r
+  hdrop := fun _ n h => ⟨h.1.drop n, h.2.drop n⟩
+  hmaxeq := hc.hmax
+  N := fun r => fitN enc.maxLen 2 (enc.addpathTx Fam.ipv4) 21 r
   body := fun r =>
-    let nb := (r.take (fitN enc.maxLen (5 + 2 + ap4 (enc.addpathTx Fam.ipv4)) (enc.addpathTx Fam.ipv4) 21 r)).flatMap
+    let nb := (r.take (fitN enc.maxLen 2 (enc.addpathTx Fam.ipv4) 21 r)).flatMap
       (encE (enc.addpathTx Fam.ipv4))
     be16 nb.length ++ nb ++ [0, 0]
   Q := fun r => .upd none none (some (Fam.ipv4,
-      (r.take (fitN enc.maxLen (5 + 2 + ap4 (enc.addpathTx Fam.ipv4)) (enc.addpathTx Fam.ipv4) 21 r)).map
+      (r.take (fitN enc.maxLen 2 (enc.addpathTx Fam.ipv4) 21 r)).map
         (decE false (enc.addpathTx Fam.ipv4)))) none [] []
-  hdo := by
+  hdo0 := by
     intro r hr hS
     have h16 := hc.hmax16
-    have hpos : 0 < fitN enc.maxLen (5 + 2 + ap4 (enc.addpathTx Fam.ipv4)) (enc.addpathTx Fam.ipv4) 21 r := by
-      cases r with
-      | nil => exact absurd rfl hr
-      | cons e rest => exact fitN_pos _ _ _ _ e rest hfit
-    have hb := fitN_bound_slack enc.maxLen (5 + 2 + ap4 (enc.addpathTx Fam.ipv4)) 2 (enc.addpathTx Fam.ipv4) 21 r
-      (by intro e he; have := encE_le_of_ip (ap := enc.addpathTx Fam.ipv4) hS e he; simp [alenOf] at this; omega) hpos
-    exact doEncode_unreach_legacy p enc es0 r hleg (encOk_of_ip false r hS) _ _ rfl rfl (by omega)
-  hpos := by
-    intro r hr _
-    cases r with
-    | nil => exact absurd rfl hr
-    | cons e rest => exact Nat.pos_iff_ne_zero.mp (fitN_pos _ _ _ _ e rest hfit)
+    have hpos : 0 < fitN enc.maxLen 2 (enc.addpathTx Fam.ipv4) 21 r := fitN_pos_of_fitS hS.2 hr
+    have hb := fitN_bound enc.maxLen 2 (enc.addpathTx Fam.ipv4) 21 r hpos
+    exact doEncode_unreach_legacy p enc es0 r hleg (encOk_of_ip false r hS.1) _ _ rfl rfl
+      (fun _ => Nat.pos_iff_ne_zero.mp hpos) (by omega)
+  hpos := fun r hr hS => Nat.pos_iff_ne_zero.mp (fitN_pos_of_fitS hS.2 hr)
   hsize := by
     intro r hr hS
-    have hpos : 0 < fitN enc.maxLen (5 + 2 + ap4 (enc.addpathTx Fam.ipv4)) (enc.addpathTx Fam.ipv4) 21 r := by
-      cases r with
-      | nil => exact absurd rfl hr
-      | cons e rest => exact fitN_pos _ _ _ _ e rest hfit
-    have hb := fitN_bound_slack enc.maxLen (5 + 2 + ap4 (enc.addpathTx Fam.ipv4)) 2 (enc.addpathTx Fam.ipv4) 21 r
-      (by intro e he; have := encE_le_of_ip (ap := enc.addpathTx Fam.ipv4) hS e he; simp [alenOf] at this; omega) hpos
+    have hpos : 0 < fitN enc.maxLen 2 (enc.addpathTx Fam.ipv4) 21 r := fitN_pos_of_fitS hS.2 hr
+    have hb := fitN_bound enc.maxLen 2 (enc.addpathTx Fam.ipv4) 21 r hpos
     have h16 := hc.hmax16
     rw [hc.hmax]
     simp only [List.length_append, be16_length, List.length_cons, List.length_nil]
     omega
   hparse := by
     intro od r hr hS
-    have hpos : 0 < fitN enc.maxLen (5 + 2 + ap4 (enc.addpathTx Fam.ipv4)) (enc.addpathTx Fam.ipv4) 21 r := by
-      cases r with
-      | nil => exact absurd rfl hr
-      | cons e rest => exact fitN_pos _ _ _ _ e rest hfit
-    have hb := fitN_bound_slack enc.maxLen (5 + 2 + ap4 (enc.addpathTx Fam.ipv4)) 2 (enc.addpathTx Fam.ipv4) 21 r
-      (by intro e he; have := encE_le_of_ip (ap := enc.addpathTx Fam.ipv4) hS e he; simp [alenOf] at this; omega) hpos
+    have hpos : 0 < fitN enc.maxLen 2 (enc.addpathTx Fam.ipv4) 21 r := fitN_pos_of_fitS hS.2 hr
+    have hb := fitN_bound enc.maxLen 2 (enc.addpathTx Fam.ipv4) 21 r hpos
     have h16 := hc.hmax16
     exact parseUpdate_unreach_legacy od peer _ (enc.addpathTx Fam.ipv4) hc.hrx
-      (take_ne_nil hr (Nat.pos_iff_ne_zero.mp hpos)) (hS.take _) (by omega)
+      (take_ne_nil hr (Nat.pos_iff_ne_zero.mp hpos)) (hS.1.take _) (by omega)
   hstruct := by
     intro r hr hS
-    have hpos : 0 < fitN enc.maxLen (5 + 2 + ap4 (enc.addpathTx Fam.ipv4)) (enc.addpathTx Fam.ipv4) 21 r := by
-      cases r with
-      | nil => exact absurd rfl hr
-      | cons e rest => exact fitN_pos _ _ _ _ e rest hfit
-    have hb := fitN_bound_slack enc.maxLen (5 + 2 + ap4 (enc.addpathTx Fam.ipv4)) 2 (enc.addpathTx Fam.ipv4) 21 r
-      (by intro e he; have := encE_le_of_ip (ap := enc.addpathTx Fam.ipv4) hS e he; simp [alenOf] at this; omega) hpos
+    have hpos : 0 < fitN enc.maxLen 2 (enc.addpathTx Fam.ipv4) 21 r := fitN_pos_of_fitS hS.2 hr
+    have hb := fitN_bound enc.maxLen 2 (enc.addpathTx Fam.ipv4) 21 r hpos
     have h16 := hc.hmax16
     exact unreach_legacy_struct _ (by omega)
 
 def unreachMpFam (p : Profile) (enc peer : Codec) (f : Fam) (v6 : Bool) (es0 : List Entry)
     (hmp : ¬ (f = Fam.ipv4 ∧ (!enc.extNh) = true)) (hf : isIpFam f = some v6)
-    (hfa : f.afi < 65536) (hfs : f.safi < 256) (hc : CodecPair enc peer f)
-    (hfit : enc.maxLen > 23 + 4 + 3 + (17 + ap4 (enc.addpathTx f))) :
+    (hfa : f.afi < 65536) (hfs : f.safi < 256) (hc : CodecPair enc peer f) :
     UpdFam p enc peer (.unreach f es0) where
-  S := IpS v6
-  hdrop := fun _ n h => h.drop n
-  N := fun r => fitN enc.maxLen (17 + ap4 (enc.addpathTx f)) (enc.addpathTx f) (23 + 4 + 3) r
+  S := fun r => IpS v6 r ∧ FitS enc.maxLen 0 (enc.addpathTx f) (23 + 4 + 3) r
+  hdrop := fun _ n h => ⟨h.1.drop n, h.2.drop n⟩
+  hmaxeq := hc.hmax
+  N := fun r => fitN enc.maxLen 0 (enc.addpathTx f) (23 + 4 + 3) r
   body := fun r =>
-    let nb := (r.take (fitN enc.maxLen (17 + ap4 (enc.addpathTx f)) (enc.addpathTx f) (23 + 4 + 3) r)).flatMap
+    let nb := (r.take (fitN enc.maxLen 0 (enc.addpathTx f) (23 + 4 + 3) r)).flatMap
       (encE (enc.addpathTx f))
     [0, 0] ++ be16 (encRaw (mpUnreachRaw f nb)).length ++ encRaw (mpUnreachRaw f nb)
   Q := fun r => .upd none none none (some (f,
-      (r.take (fitN enc.maxLen (17 + ap4 (enc.addpathTx f)) (enc.addpathTx f) (23 + 4 + 3) r)).map
+      (r.take (fitN enc.maxLen 0 (enc.addpathTx f) (23 + 4 + 3) r)).map
         (decE v6 (enc.addpathTx f)))) [] []
-  hdo := by
+  hdo0 := by
     intro r hr hS
     have h16 := hc.hmax16
-    have hpos : 0 < fitN enc.maxLen (17 + ap4 (enc.addpathTx f)) (enc.addpathTx f) (23 + 4 + 3) r := by
-      cases r with
-      | nil => exact absurd rfl hr
-      | cons e rest => exact fitN_pos _ _ _ _ e rest hfit
-    have hb := fitN_bound enc.maxLen (17 + ap4 (enc.addpathTx f)) (enc.addpathTx f) (23 + 4 + 3) r
-      (by intro e he; have := encE_le_of_ip (ap := enc.addpathTx f) hS e he; have := alenOf_le v6; omega) hpos
-    exact doEncode_unreach_mp p enc f es0 r hmp (encOk_of_ip v6 r hS)
-      (fitN enc.maxLen (17 + ap4 (enc.addpathTx f)) (enc.addpathTx f) (23 + 4 + 3) r)
-      ((r.take (fitN enc.maxLen (17 + ap4 (enc.addpathTx f)) (enc.addpathTx f) (23 + 4 + 3) r)).flatMap
-        (encE (enc.addpathTx f))) rfl rfl (by omega)
-  hpos := by
-    intro r hr _
-    cases r with
-    | nil => exact absurd rfl hr
-    | cons e rest => exact Nat.pos_iff_ne_zero.mp (fitN_pos _ _ _ _ e rest hfit)
+    have hpos : 0 < fitN enc.maxLen 0 (enc.addpathTx f) (23 + 4 + 3) r := fitN_pos_of_fitS hS.2 hr
+    have hb := fitN_bound enc.maxLen 0 (enc.addpathTx f) (23 + 4 + 3) r hpos
+    exact doEncode_unreach_mp p enc f es0 r hmp (encOk_of_ip v6 r hS.1)
+      (fitN enc.maxLen 0 (enc.addpathTx f) (23 + 4 + 3) r)
+      ((r.take (fitN enc.maxLen 0 (enc.addpathTx f) (23 + 4 + 3) r)).flatMap
+        (encE (enc.addpathTx f))) rfl rfl (fun _ => Nat.pos_iff_ne_zero.mp hpos) (by omega)
+  hpos := fun r hr hS => Nat.pos_iff_ne_zero.mp (fitN_pos_of_fitS hS.2 hr)
   hsize := by
     intro r hr hS
-    have hpos : 0 < fitN enc.maxLen (17 + ap4 (enc.addpathTx f)) (enc.addpathTx f) (23 + 4 + 3) r := by
-      cases r with
-      | nil => exact absurd rfl hr
-      | cons e rest => exact fitN_pos _ _ _ _ e rest hfit
-    have hb := fitN_bound enc.maxLen (17 + ap4 (enc.addpathTx f)) (enc.addpathTx f) (23 + 4 + 3) r
-      (by intro e he; have := encE_le_of_ip (ap := enc.addpathTx f) hS e he; have := alenOf_le v6; omega) hpos
+    have hpos : 0 < fitN enc.maxLen 0 (enc.addpathTx f) (23 + 4 + 3) r := fitN_pos_of_fitS hS.2 hr
+    have hb := fitN_bound enc.maxLen 0 (enc.addpathTx f) (23 + 4 + 3) r hpos
     have h16 := hc.hmax16
     rw [hc.hmax]
     simp only [List.length_append, be16_length, List.length_cons, List.length_nil]
@@ -277,26 +219,18 @@ def unreachMpFam (p : Profile) (enc peer : Codec) (f : Fam) (v6 : Bool) (es0 : L
     omega
   hparse := by
     intro od r hr hS
-    have hpos : 0 < fitN enc.maxLen (17 + ap4 (enc.addpathTx f)) (enc.addpathTx f) (23 + 4 + 3) r := by
-      cases r with
-      | nil => exact absurd rfl hr
-      | cons e rest => exact fitN_pos _ _ _ _ e rest hfit
-    have hb := fitN_bound enc.maxLen (17 + ap4 (enc.addpathTx f)) (enc.addpathTx f) (23 + 4 + 3) r
-      (by intro e he; have := encE_le_of_ip (ap := enc.addpathTx f) hS e he; have := alenOf_le v6; omega) hpos
+    have hpos : 0 < fitN enc.maxLen 0 (enc.addpathTx f) (23 + 4 + 3) r := fitN_pos_of_fitS hS.2 hr
+    have hb := fitN_bound enc.maxLen 0 (enc.addpathTx f) (23 + 4 + 3) r hpos
     have h16 := hc.hmax16
     have hne := take_ne_nil hr (Nat.pos_iff_ne_zero.mp hpos)
     have := parseUpdate_unreach_mp od peer f v6
-      (r.take (fitN enc.maxLen (17 + ap4 (enc.addpathTx f)) (enc.addpathTx f) (23 + 4 + 3) r))
-      (enc.addpathTx f) hc.hrx hf hfa hfs (hS.take _) (by omega)
+      (r.take (fitN enc.maxLen 0 (enc.addpathTx f) (23 + 4 + 3) r))
+      (enc.addpathTx f) hc.hrx hf hfa hfs (hS.1.take _) (by omega)
     rw [this, if_neg hne]
   hstruct := by
     intro r hr hS
-    have hpos : 0 < fitN enc.maxLen (17 + ap4 (enc.addpathTx f)) (enc.addpathTx f) (23 + 4 + 3) r := by
-      cases r with
-      | nil => exact absurd rfl hr
-      | cons e rest => exact fitN_pos _ _ _ _ e rest hfit
-    have hb := fitN_bound enc.maxLen (17 + ap4 (enc.addpathTx f)) (enc.addpathTx f) (23 + 4 + 3) r
-      (by intro e he; have := encE_le_of_ip (ap := enc.addpathTx f) hS e he; have := alenOf_le v6; omega) hpos
+    have hpos : 0 < fitN enc.maxLen 0 (enc.addpathTx f) (23 + 4 + 3) r := fitN_pos_of_fitS hS.2 hr
+    have hb := fitN_bound enc.maxLen 0 (enc.addpathTx f) (23 + 4 + 3) r hpos
     have h16 := hc.hmax16
     exact unreach_mp_struct f _ (by omega)
 
